@@ -46,6 +46,8 @@ type Op struct {
 	Commit   bool   `json:"commit"`
 	Stranger bool   `json:"stranger"`
 	NStmts   int    `json:"nstmts"`
+	Reuse    bool   `json:"reuse"` // auto: run on the connection of op Target, taken back out of the pool
+	Slow     bool   `json:"slow"`  // auto: the business statement outlasts xa_branch_execution_timeout
 }
 
 type Scenario struct {
@@ -65,6 +67,9 @@ type OpResult struct {
 	Detail string `json:"detail,omitempty"`
 	Good   bool   `json:"good,omitempty"` // p2: returned without error and with the Committed / Rollbacked status
 	ID     string `json:"id,omitempty"` // auto: identifier of the branch this op created ("" if none)
+	EvFrom int    `json:"ev_from"`      // events [EvFrom, EvTo) were produced by this op
+	EvTo   int    `json:"ev_to"`
+	ReqID  string `json:"req_id,omitempty"` // p2: xa_id of the request's (xid, branch id)
 }
 
 type Result struct {
@@ -74,6 +79,7 @@ type Result struct {
 	Other    int        `json:"other"` // statements that were neither XA nor business
 	Oracle   []string   `json:"oracle"`
 	Legal    bool       `json:"legal"`
+	Tags     []string   `json:"tags"` // input features computed on the run (finding predicates)
 }
 
 // ---------------------------------------------------------------- coordinator stub
@@ -199,19 +205,35 @@ func runScenario(sc Scenario) Result {
 	opPhys := map[int]int{}         // op index -> physical connection number
 	finished := map[int]bool{}
 
+	opPhysAll := map[int]int{}  // op index -> physical connection its pool connection sits on
+	prepOn := map[int]bool{}    // physical connection -> a branch was prepared on it
+	startOK := map[int]bool{}   // op index -> its XA START was accepted
+	tags := map[string]bool{}
 	for i, op := range sc.Ops {
 		var r OpResult
+		evFrom := len(w.snapshot())
 		switch op.K {
 		case "auto", "local", "reuse":
 			var conn *gosql.Conn
-			if op.K == "reuse" {
+			reused := false
+			if op.K == "reuse" || (op.K == "auto" && op.Reuse) {
 				conn = opConn[op.Target]
-				if conn != nil && op.Commit {
-					// variant: the connection goes back to the pool and is taken out again
+				reused = conn != nil
+				if reused && prepOn[opPhysAll[op.Target]] {
+					tags["xa.conn-reuse"] = true // reuse after a SUCCESSFUL branch
+				}
+				if conn != nil && op.K == "auto" {
+					// through the pool: the connection goes back and is taken out again (ResetSession)
 					conn.Close()
+					for k, c := range opConn {
+						if c == conn {
+							delete(opConn, k)
+						}
+					}
 					conn = nil
 				}
 			}
+			nBefore := w.nconnNow()
 			if conn == nil {
 				c, cerr := db.Conn(context.Background())
 				if cerr != nil {
@@ -222,21 +244,38 @@ func runScenario(sc Scenario) Result {
 				pinned = append(pinned, c)
 			}
 			opConn[i] = conn
+			if w.nconnNow() > nBefore {
+				opPhysAll[i] = nBefore
+			} else if reused {
+				opPhysAll[i] = opPhysAll[op.Target]
+			}
 			ctx := context.Background()
 			if op.K != "local" {
 				ctx = gctx(sc.Xids[op.G])
+			}
+			if op.Slow {
+				seatasql.VerifSetXAConnTimeout(time.Nanosecond)
+				w.setSlow(true)
+			} else {
+				seatasql.VerifSetXAConnTimeout(time.Hour)
 			}
 			before := len(w.snapshot())
 			cl, det := hutil.Guard(5*time.Second, func() error {
 				_, e := conn.ExecContext(ctx, stmtSQL)
 				return e
 			})
+			w.setSlow(false)
+			seatasql.VerifSetXAConnTimeout(time.Hour)
 			r = OpResult{Class: cl, Detail: clip(det)}
 			for _, ev := range w.snapshot()[before:] {
 				if ev.K == "sql" && ev.Cmd == "START" {
 					r.ID = ev.ID
 					opID[i] = ev.ID
 					opPhys[i] = ev.Conn
+					startOK[i] = ev.Res == "ok"
+				}
+				if ev.K == "sql" && ev.Cmd == "PREPARE" && ev.Res == "ok" {
+					prepOn[ev.Conn] = true
 				}
 			}
 		case "explicit":
@@ -265,14 +304,25 @@ func runScenario(sc Scenario) Result {
 				}
 			}
 		case "p2":
+			// delivered to a PREPARED branch, or (rollback only) to a registered branch whose XA START failed
 			id, ok := opID[op.Target]
-			if !ok || !w.prepared(id) || finished[op.Target] {
+			isPrep := ok && w.prepared(id)
+			failedStart := ok && !startOK[op.Target] && !op.Commit
+			if !ok || !(isPrep || failedStart) || finished[op.Target] {
 				r = OpResult{Class: "skipped"}
 				break
 			}
 			finished[op.Target] = true
 			xid, b := w.regOf(id)
-			if op.Stranger {
+			r.ReqID = xaID(xid, b)
+			if failedStart && !isPrep {
+				for k, ph := range opPhysAll {
+					if k > op.Target && ph == opPhysAll[op.Target] && !versionGE(sc.Version, 8, 0, 29) {
+						tags["xa.stale-keeper"] = true
+					}
+				}
+			}
+			if op.Stranger && isPrep {
 				// the process that ran phase one is gone: its session is dropped by the
 				// server (a PREPARED branch survives, detached) and nobody holds the connection
 				w.drop(opPhys[op.Target], true)
@@ -294,13 +344,26 @@ func runScenario(sc Scenario) Result {
 				}
 				return e
 			})
-			r = OpResult{Class: cl, Detail: clip(det), Status: int(st)}
+			r = OpResult{Class: cl, Detail: clip(det), Status: int(st), ReqID: r.ReqID}
 			r.Good = cl == "ok" && ((op.Commit && st == branch.BranchStatusPhasetwoCommitted) ||
 				(!op.Commit && st == branch.BranchStatusPhasetwoRollbacked))
 		default:
 			r = OpResult{Class: "skipped"}
 		}
+		r.EvFrom, r.EvTo = evFrom, len(w.snapshot())
 		res.Ops = append(res.Ops, r)
+	}
+	for i, op := range sc.Ops {
+		if op.K == "auto" && op.Slow && i < len(res.Ops) {
+			for _, ev := range w.snapshot()[res.Ops[i].EvFrom:res.Ops[i].EvTo] {
+				if ev.K == "sql" && ev.Cmd == "ROLLBACK" && ev.Res == "fault" {
+					tags["xa.timeout.rollback-fault"] = true
+				}
+			}
+		}
+	}
+	for t := range tags {
+		res.Tags = append(res.Tags, t)
 	}
 	hutil.Guard(5*time.Second, func() error {
 		for _, c := range pinned {
@@ -377,6 +440,13 @@ func oracle(sc *Scenario, r *Result) (fails []string, legal bool) {
 			endFaults[ev.ID]++
 		}
 	}
+	nfaultAll := map[string]int{}
+	for _, ev := range r.Events {
+		if ev.K == "sql" && ev.Res == "fault" {
+			nfaultAll[ev.ID]++
+		}
+	}
+	onConn := map[int]string{} // session -> identifier of the branch bound to it
 	state := map[string]int{} // 0 none, 1 active, 2 idle, 3 prepared, 4 committed, 5 rolled back
 	failed := map[string]bool{}
 	order := []string{}
@@ -404,6 +474,14 @@ func oracle(sc *Scenario, r *Result) (fails []string, legal bool) {
 			if ev.Res != "ok" && ev.Res != "fault" {
 				// the one tolerated rejection: XA END(success) AND the XA END(fail) after it were both
 				// made to fail, the closing XA ROLLBACK then meets a still active branch (docs/C17.md)
+				if ev.Cmd == "ROLLBACK" && ev.Res == "nota" && (state[id] == 0 || state[id] == 5) {
+					continue // nothing to roll back: never started / already rolled back (reading in docs/C17.md)
+				}
+				if ev.Cmd == "START" && ev.Res == "rmfail" && state[id] == 0 && nfaultAll[onConn[ev.Conn]] >= 2 {
+					// the session is still bound to an earlier branch whose compensating XA ROLLBACK was
+					// made to fail as well (second failure): the new branch cannot start, its caller gets the error
+					continue
+				}
 				if endFaults[id] < 2 {
 					bad("XA %s '%s' rejected by the server (%s): illegal in state %d", ev.Cmd, id, ev.Res, state[id])
 					legal = false
@@ -411,6 +489,25 @@ func oracle(sc *Scenario, r *Result) (fails []string, legal bool) {
 				continue
 			}
 			s := state[id]
+			if ev.Cmd == "ROLLBACK" && ev.Res == "fault" && (s == 0 || s == 5) {
+				continue // as above: a rollback with nothing to roll back, made to fail
+			}
+			if ev.Res == "ok" {
+				switch ev.Cmd {
+				case "START":
+					onConn[ev.Conn] = id
+				case "COMMIT", "ROLLBACK":
+					for c, x := range onConn {
+						if x == id {
+							delete(onConn, c)
+						}
+					}
+				case "PREPARE":
+					if versionGE(sc.Version, 8, 0, 29) {
+						delete(onConn, ev.Conn)
+					}
+				}
+			}
 			okHere := false
 			switch ev.Cmd {
 			case "START":
@@ -516,8 +613,16 @@ func oracle(sc *Scenario, r *Result) (fails []string, legal bool) {
 			if o.Class == "skipped" {
 				continue
 			}
-			// phase two addresses the prepared branch with the identifier phase one used
+			// phase two names xa_id of the REQUEST's (xid, branch id), whatever connection serves it
+			for _, ev := range r.Events[o.EvFrom:o.EvTo] {
+				if ev.K == "sql" && ev.ID != o.ReqID {
+					bad("op %d: phase two for '%s' sent XA %s '%s'", i, o.ReqID, ev.Cmd, ev.ID)
+				}
+			}
 			id := r.Ops[op.Target].ID
+			if !prefixPrepared(r.Events[:o.EvFrom], id) {
+				continue // rollback request for a branch whose XA START failed: nothing more to require
+			}
 			want := "ROLLBACK"
 			if op.Commit {
 				want = "COMMIT"
